@@ -51,10 +51,11 @@ Proof.
     change (sub (case_cmodel c) k oc) with (pair_mem (c_sub c) k oc) in Ht. rewrite Hsub in Ht.
     destruct (attr (mw (case_world c)) o a) as [z|o'|zs|xs] eqn:Hav.
     + apply andb_true_iff in Ht. destruct Ht as [H1 H2]. apply negb_true_iff in H1, H2. rewrite H1.
-      rewrite H2. reflexivity.
+      rewrite H2. right. reflexivity.
     + apply andb_true_iff in Ht. destruct Ht as [Ht H3]. apply andb_true_iff in Ht. destruct Ht as [H1 H2].
       apply negb_true_iff in H1. rewrite H1. rewrite H2. eauto.
-    + discriminate.
+    + apply andb_true_iff in Ht. destruct Ht as [Ht H3]. apply andb_true_iff in Ht. destruct Ht as [H1 H2].
+      apply negb_true_iff in H1, H2. rewrite H1, H2. left. exact H3.
     + apply andb_true_iff in Ht. destruct Ht as [H1 H2]. rewrite H1. exists xs. split; auto.
       rewrite forallb_forall in H2. exact H2.
   - rewrite Hz in Hsub. apply pair_mem_in in Hsub. unfold class0_b in H0. rewrite forallb_forall in H0.
